@@ -534,7 +534,27 @@ def rule_projector(rep: Report, repo: Repo):
             t = _inline_projector_helpers(t, m.cls, RULE)
             results[norm(t)] = t
         for ttxt, t in results.items():
-            got = ld.Den(env, RULE).ev(t)
+            # `<relative of self>._apply(x)`: the action of another projector object (the transpose / adjoint / conjugate of this one)
+            rel = None
+            if isinstance(t, ast.Call) and isinstance(t.func, ast.Attribute) and len(t.args) == 1 and not t.keywords:
+                owner = t.func.value
+                d_ = dotted(owner)
+                op_ = None
+                if d_ and d_.startswith("self.") and d_[5:] in CACHE_OP:
+                    op_ = CACHE_OP[d_[5:]]
+                elif isinstance(owner, ast.Call) and isinstance(owner.func, ast.Attribute) and norm(owner.func.value) == "self" and owner.func.attr in METHOD_OP and not owner.args:
+                    op_ = METHOD_OP[owner.func.attr]
+                elif isinstance(owner, ast.Attribute) and norm(owner.value) == "self" and owner.attr in ("T", "H"):
+                    op_ = owner.attr
+                bound_to = [sl_ for sl_ in ("_matvec", "_rmatvec") if (m.resolve(sl_) is not None and m.resolve(sl_).name == t.func.attr)]
+                if op_ is not None and len(bound_to) == 1:
+                    rel = (op_, bound_to[0])
+            if rel is not None:
+                A_, B_ = m._ideal(rel[0], (R, L))
+                x_ = ld.Den(env, RULE).ev(t.args[0])
+                got = ld.sub(x_, ld.mul(A_, ld.mul(ld.adjoint(B_), x_))) if rel[1] == "_matvec" else ld.sub(x_, ld.mul(B_, ld.mul(ld.adjoint(A_), x_)))
+            else:
+                got = ld.Den(env, RULE).ev(t)
             if got == want:
                 rep.ok(RULE, f"{CLS}.{slot} -> {f.name} denotes {txt}", f"`{ttxt[:90]}` = {ld.show(got)}", loc(f))
             else:
@@ -567,6 +587,19 @@ def rule_projector(rep: Report, repo: Repo):
                     rep.fail(RULE, f"{CLS}.{meth} [{mode}] returns an operator denoting {ld.show(got)}",
                              f"required {OPNAME[op]}(P) = {ld.show(want)}", loc(f))
     rep.check(m.cls.bases and norm(m.cls.bases[0]) == "LinearOperator", RULE, f"{CLS} derives from scipy LinearOperator", "", loc(m.cls))
+    # composition is scipy's business: the class defines the slots and the three relatives; an override of the public composition API
+    # that answers a product by an operand (P . P = P) assumes biorthonormal vectors, which the class does not require
+    API = {"dot", "rdot", "matvec", "matmat", "rmatvec", "rmatmat", "__matmul__", "__rmatmul__", "__mul__", "__rmul__", "__call__", "__add__",
+           "__sub__", "__neg__", "__pow__", "__truediv__", "adjoint", "transpose"}
+    for meth in [x for x in m.cls.body if isinstance(x, ast.FunctionDef) and x.name in API]:
+        rets = [r for r in ast.walk(meth) if isinstance(r, ast.Return) and r.value is not None]
+        operand_returns = [r for r in rets if isinstance(r.value, ast.Name) and r.value.id in ["self"] + [a.arg for a in meth.args.args]]
+        if operand_returns:
+            rep.fail(RULE, f"{CLS}.{meth.name} overrides scipy's composition and answers a product with one of its operands (`{norm(operand_returns[0])}`)",
+                     "1 - R L^H is idempotent only if L^H R = 1; for general vector sets P . P differs from P, and so do the adjoint and "
+                     "right-multiplication of the composite (the dense matrix 1 - R L^H is the reference)", loc(operand_returns[0]))
+        else:
+            raise AnalysisError(RULE, f"{CLS}.{meth.name} overrides a composition method of scipy's LinearOperator: not understood")
 
 
 # ---------------------------------------------------------------------------
